@@ -436,9 +436,16 @@ def _nondegenerate(method, a, b):
         else:
             if len(set(np.asarray(x).tolist())) < 2:
                 raise Degenerate('all tied')
+            srt = np.sort(np.asarray(x, dtype=float))
+            gap = np.diff(srt)
+            if np.any((gap > 0) & (gap <= 1e-11 * max(1.0, float(np.max(np.abs(srt)))))):
+                raise Degenerate('near-tie: rank measure is discontinuous here')
 
 
-def mean_similarity(case, pred_full, rid, cid):
+RANK_METHODS = ('spearman', 'rho-a', 'tau-a', 'kendall', 'tau-b')
+
+
+def mean_similarity(case, pred_full, rid, cid, arithmetic=False):
     """mean over the RDMs `rid` of the reference similarity between the prediction
     restricted to conditions `cid` and the source data RDM at (`rid`, `cid`)"""
     method = case['method']
@@ -452,6 +459,11 @@ def mean_similarity(case, pred_full, rid, cid):
     v = None
     if method in ('cosine_cov', 'corr_cov'):
         v = dense_v(m)[keep][:, keep]
+    if arithmetic and method in RANK_METHODS:
+        # the prediction is a weighted sum: ties in it are decided by rounding
+        srt = np.sort(pv[keep])
+        if len(srt) > 1 and np.any(np.diff(srt) <= 1e-11 * max(1.0, float(np.max(np.abs(srt))))):
+            raise Degenerate('tie in a computed prediction under a rank measure')
     sims = []
     for d in dat:
         a, b = pv[keep], d[keep]
